@@ -15,8 +15,8 @@ seed/body type combinations). `Count()` / `Sum()` are the instances `Aggregate(0
 
 Full statement (not proved at this strength):
     ∀ b q, WellTyped q → ∃ p, pipeline b q = ok p ∧ ∀ ev, runEvent p ev = denoteRows q ev
-What is proved (success direction, `BackendOK` = ATLAS / CMS AOD, all chains / events / number
-models): `aggregate_is_fold` (the loop is the fold), `aggregate_scalar_correct_partial` (scalars
+What is proved (success direction; all chains / events / number models; `BackendOK` = ATLAS / CMS
+AOD, and `BackendBase` = these + CMS miniAOD in the `_tok` / `_miniaod` theorems): `aggregate_is_fold` (the loop is the fold), `aggregate_scalar_correct_partial` (scalars
 over aggregates), `aggregateRows_correct_partial` (the whole package), for aggregates that are
   * EXACTLY TYPED (`aggExact`): the accumulator keeps the seed's type and holds the body's value
     without a conversion of kind — int seed & int body, or float seed & floating body; or
@@ -37,6 +37,7 @@ None of these is a defect w.r.t. Python numerics.
 -/
 import FaxVerif.Gen.AggRowsCorrect
 import FaxVerif.C01.Theorems
+import FaxVerif.C01.TheoremsMiniAod
 namespace FaxVerif.C01
 open FaxVerif.Cpp FaxVerif.Linq FaxVerif.Gen
 variable {D : Type}
@@ -156,7 +157,7 @@ theorem aggregateRows_correct_partial (B : Backend) (hB : BackendOK B) (nm cn : 
     (rows : List (List (Val D)))
     (hden : denoteRows QC (AQ.toQuery cols) = .ok rows) :
     ∃ σ', runEvent (compileA B nm cn cols) QC.N σc QC.ev = .ok (rows, σ') :=
-  aggRows_correct B hB nm cn hinj hcinj hres hcres hdisj QC hcollT cols hhyp σc hσ rows hden
+  aggRows_correct B hB.base nm cn hinj hcinj hres hcres hdisj QC hcollT cols hhyp σc hσ rows hden
 
 /-! ### the widened accumulator (int seed, floating body: `Sum()` of floats) -/
 
@@ -219,9 +220,9 @@ theorem aggregate_widened_is_fold_partial (C : Ctx D) (QC : QCtx D) (hN : QC.N =
 `iEvent.getByToken(token, result)` needs the token of this chain to be bound, in the run's token
 table, to the chain's container type and bank (`TokChain`; vacuous for the backends retrieving by
 bank name). `compileA` emits such a table entry per aggregate (checked by the text tie on
-cms_miniaod); that the emitted table satisfies `TokChain` for every aggregate of the package — the
-analogue of `tokCols_eventRows` — is NOT proved, so the end-to-end `aggregateRows_correct_partial`
-stays at `BackendOK`. Exact typing (`wtAgg`) or, with `hw`, the widened case. -/
+cms_miniaod) and the emitted table satisfies `TokChain` for every aggregate of the package
+(`aggregate_token_table`), which lifts the end-to-end theorem to all three backends
+(`aggregateRows_correct_miniaod_partial`). Exact typing (`wtAgg`) or, with `hw`, the widened case. -/
 theorem aggregate_is_fold_tok_partial (C : Ctx D) (QC : QCtx D) (hN : QC.N = C.N) (hev : QC.ev = C.ev)
     (B : Backend) (hB : BackendBase B) (nm : Nat → String)
     (hinj : ∀ i j, nm i = nm j → i = j) (hres : ∀ j, nm j ≠ "result")
@@ -239,6 +240,30 @@ theorem aggregate_is_fold_tok_partial (C : Ctx D) (QC : QCtx D) (hN : QC.N = C.N
   rcases hw with hex | ⟨hwd, hne⟩
   · exact agg_fold_correct C QC hN hev B hB nm hinj hres hcollT g n htok s ws v hdone (by simp [wtAgg, hbase, hex]) hmt hchain hfold'
   · exact agg_widen_fold_correct C QC hN hev B hB nm hinj hres hcollT g n htok s ws v hdone hbase hwd hmt hchain hne hfold'
+
+/-- **C01.aggregate_token_table** — the token table `compileA` emits binds, for every aggregate
+of the package, the token its retrieval uses to that aggregate's own container type and bank (one
+entry per aggregate, token names pairwise distinct); vacuous on the backends retrieving by bank name. -/
+theorem aggregate_token_table (B : Backend) (nm cn : Nat → String) (hinj : ∀ i j, nm i = nm j → i = j)
+    (cols : AQ) (N : Num D) (ev : Event D) :
+    TokGEs B nm ((compileA B nm cn cols).ctx N ev) (cols.map (·.2)) 0 :=
+  tokGEs_compileA B nm cn hinj cols N ev
+
+/-- **C01.aggregateRows_correct_miniaod_partial** — `aggregateRows_correct_partial` for EVERY
+backend satisfying `BackendBase` — ATLAS, CMS AOD and CMS miniAOD (retrieval by token:
+`iEvent.getByToken(token, result)`, the token initialised from the table `compileA` emits). -/
+theorem aggregateRows_correct_miniaod_partial (B : Backend) (hB : BackendBase B) (nm cn : Nat → String)
+    (hinj : ∀ i j, nm i = nm j → i = j) (hcinj : ∀ i j, cn i = cn j → i = j)
+    (hres : ∀ j, nm j ≠ "result") (hcres : ∀ k, cn k ≠ "result") (hdisj : ∀ j k, nm j ≠ cn k)
+    (QC : QCtx D) (hcollT : ∀ name, B.collType name = QC.collType name)
+    (cols : AQ) (hhyp : ∀ p ∈ cols, wtGE p.2 = true ∧ ∀ g ∈ aggsGE p.2, AggHyp QC g)
+    (σc : Env D) (hσ : ∀ k, k < cols.length → (σc (cn k)).isSome = true)
+    (rows : List (List (Val D)))
+    (hden : denoteRows QC (AQ.toQuery cols) = .ok rows) :
+    ∃ σ', runEvent (compileA B nm cn cols) QC.N σc QC.ev = .ok (rows, σ') :=
+  aggRows_correct B hB nm cn hinj hcinj hres hcres hdisj QC hcollT cols hhyp σc hσ rows hden
+
+example : BackendBase cmsMiniAodB := backendOK_cmsMiniAod
 
 /-! ### the exact typing side condition cannot be dropped from the TYPED statement -/
 
